@@ -95,8 +95,11 @@ func Exp(ctx *expr.Context, input system.Collection, args ...expr.Expression) (s
 	}
 	// Exp number
 	res := math.Pow(math.E, number)
-	result := system.MustParseDecimal(fmt.Sprintf("%v", res))
-	return system.Collection{result}, nil
+	// A result that is not a finite number has no Decimal representation.
+	if math.IsNaN(res) || math.IsInf(res, 0) {
+		return system.Collection{}, nil
+	}
+	return system.Collection{system.Decimal(decimal.NewFromFloat(res))}, nil
 }
 
 // Floor returns the first integer less than or equal to the input.
@@ -130,8 +133,8 @@ func Ln(ctx *expr.Context, input system.Collection, args ...expr.Expression) (sy
 		return nil, err
 	}
 	res := math.Log(number)
-	// Validating NaN case
-	if math.IsNaN(res) {
+	// Validating NaN and infinite (ln of zero) cases
+	if math.IsNaN(res) || math.IsInf(res, 0) {
 		return system.Collection{}, nil
 	}
 	// Type conversion to system.Decimal
@@ -165,8 +168,8 @@ func Log(ctx *expr.Context, input system.Collection, args ...expr.Expression) (s
 	}
 	// Log number to base
 	res := logToBase(number, base)
-	// Validating NaN case
-	if math.IsNaN(res) {
+	// Validating NaN and infinite cases
+	if math.IsNaN(res) || math.IsInf(res, 0) {
 		return system.Collection{}, nil
 	}
 	// Type conversion to system.Decimal
@@ -189,6 +192,10 @@ func Power(ctx *expr.Context, input system.Collection, args ...expr.Expression) 
 	if err != nil {
 		return nil, err
 	}
+	// An empty exponent yields an empty result.
+	if argValues.IsEmpty() {
+		return system.Collection{}, nil
+	}
 	// Validating integers case
 	_, ok := input[0].(system.Integer)
 	_, ok2 := argValues[0].(system.Integer)
@@ -203,8 +210,11 @@ func Power(ctx *expr.Context, input system.Collection, args ...expr.Expression) 
 		if err != nil {
 			return nil, err
 		}
-		// Powering ints
-		res := powInt32(number, exp)
+		// Powering ints: a result outside the Integer range is empty
+		res, ok := powInt32(number, exp)
+		if !ok {
+			return system.Collection{}, nil
+		}
 		return system.Collection{system.Integer(res)}, nil
 	}
 	// Input type conversion to float64
@@ -219,8 +229,8 @@ func Power(ctx *expr.Context, input system.Collection, args ...expr.Expression) 
 	}
 	// Powering number
 	res := math.Pow(number, exp)
-	// Validating NaN case
-	if math.IsNaN(res) {
+	// Validating NaN and infinite cases
+	if math.IsNaN(res) || math.IsInf(res, 0) {
 		return system.Collection{}, nil
 	}
 	// Type conversion to system.Decimal
@@ -355,17 +365,33 @@ func logToBase(number, base float64) float64 {
 }
 
 // powInt32 returns the powering of a number to a given exponential.
-func powInt32(base, exp int32) int32 {
-	if exp == 0 {
-		return 1
-	}
+// powInt32 raises base to the power exp (0 for a negative exp). The second
+// result is false when the power does not fit an int32.
+func powInt32(base, exp int32) (int32, bool) {
 	if exp < 0 {
-		return 0
+		return 0, true
 	}
-
-	result := base
-	for i := int32(2); i <= exp; i++ {
-		result *= base
+	result := int64(1)
+	switch base {
+	case 0:
+		if exp == 0 {
+			return 1, true
+		}
+		return 0, true
+	case 1:
+		return 1, true
+	case -1:
+		if exp%2 == 0 {
+			return 1, true
+		}
+		return -1, true
 	}
-	return result
+	// |base| >= 2: the loop leaves the int32 range after at most 31 steps.
+	for i := int32(0); i < exp; i++ {
+		result *= int64(base)
+		if result > math.MaxInt32 || result < math.MinInt32 {
+			return 0, false
+		}
+	}
+	return int32(result), true
 }
